@@ -134,10 +134,17 @@ pub fn build(genes: Vec<u16>) -> ADoc {
             children.push(ANode::EntRef(entities[g.pick(entities.len())].clone()));
         }
     }
+    // a fifth of the documents name an external subset as well (never read; the internal subset comes first and binds)
+    let external = if g.chance(1, 5) {
+        let sys = ["r.dtd", "http://e/x.dtd", ""][g.pick(3)].to_string();
+        Some((if g.chance(1, 2) { Some("-//W3C//DTD X//EN".to_string()) } else { None }, sys))
+    } else {
+        None
+    };
     ADoc {
         decl: None,
         pre: vec![],
-        doctype: Some(ADocType { name: "r".into(), external: None, decls: Some(decls) }),
+        doctype: Some(ADocType { name: "r".into(), external, decls: Some(decls) }),
         pre2: vec![],
         root: AElem { name: QN::new(None, "r"), ns_decls: vec![], attrs, children },
         post: vec![],
@@ -183,7 +190,7 @@ impl Property for C11 {
     fn rule(&self) -> String {
         "a one-element document whose internal subset declares 0-3 general entities (values = piece lists of text, TAB/LF/CR, character references to white space and other \
          characters, references to earlier entities) and 0-2 ATTLISTs for the element (1-3 definitions each, every attribute type, #REQUIRED/#IMPLIED/default/#FIXED, the same \
-         name possibly declared twice: first binding wins) and 0-3 written attributes whose value literals are such piece lists; rendered with random quote style, white space \
+         name possibly declared twice: first binding wins; a fifth of the DOCTYPEs also carry an external identifier) and 0-3 written attributes whose value literals are such piece lists; rendered with random quote style, white space \
          and reference spellings. Oracle: own implementation of XML 1.0 3.3.3 (literal white space -> space, character references unchanged, entity references expanded \
          recursively with their white space normalised, trim+collapse for non-CDATA types, defaulting with specified=false; #IMPLIED/#REQUIRED only when written), observed through \
          Attr::value, Attr::specified, Element::get_attribute, the attribute set and XPath string(@a); a candidate violation is reported only if pyexpat (when available) reports the \
@@ -211,6 +218,9 @@ impl Property for C11 {
                     let kinds = [a.value.iter().any(|p| matches!(p, Piece::Text(_))), a.value.iter().any(|p| matches!(p, Piece::CharRef(_))), a.value.iter().any(|p| matches!(p, Piece::EntRef(_)))];
                     kinds.iter().filter(|x| **x).count() >= 2
                 });
+                if doc.doctype.as_ref().map(|d| d.external.is_some()).unwrap_or(false) {
+                    labels.push("doctype-with-external-identifier".into());
+                }
                 if multi_piece {
                     labels.push("multi-piece-value".into());
                 }
